@@ -27,7 +27,7 @@ RULE = ('each case = one radial_solver call in its own sanitized interpreter: (a
         '(d) lifetime probes; non-trivial = the child produced an outcome record or died (both are observations); distinct by case hash')
 ASSUMPTIONS = ['CPython, numpy, scipy(LAPACK) and CyRK are not instrumented: errors inside them are only seen when they touch instrumented memory or crash',
                'input preservation tolerance 8 ulp (non-dimensionalisation and its inverse are a multiply and a divide)',
-               'a wall-clock watchdog (300 s) firing without CPU exhaustion is inconclusive, never a violation']
+               'a wall-clock watchdog (300 s) firing without CPU exhaustion is inconclusive, never a violation', 'termination is decided on CPU time against explicit step budgets: 60 s for budgets <= 1000 steps and for the 20000-step budget of fault-free stacks']
 G = 6.6743e-11
 _overlay = None
 WORKER_ENV = {}
@@ -217,7 +217,8 @@ def build_inputs(c):
             freq = _val(v)
         else:
             bulk = _val(v)
-    kw = {'use_kamata': c.get('kamata', True), 'nondimensionalize': c['nondim'], 'integration_rtol': 1e-7, 'integration_atol': 1e-10, 'max_num_steps': 100000}
+    kw = {'use_kamata': c.get('kamata', True), 'nondimensionalize': c['nondim'], 'integration_rtol': 1e-7, 'integration_atol': 1e-10,
+          'max_num_steps': 20000 if c.get('kind') == 'stack' else 100000}
     if 'solve_for' in f:
         kw['solve_for'] = tuple(f['solve_for'])
     if f.get('solve_for_raw') == 'list':
@@ -376,12 +377,14 @@ def eval_case(c):
     if r['timeout'] and r['signal'] not in ('SIGXCPU', 'SIGKILL'):
         return {'status': 'inconclusive', 'nontrivial': False, 'violations': [], 'obs': dict(obs, note='wall-clock watchdog without CPU exhaustion'), 'counters': cnt}
     if r['signal'] == 'SIGXCPU' or (r['timeout'] and r['signal'] == 'SIGKILL'):
-        budget = f.get('kw', {}).get('max_num_steps', 100000)
-        if not (isinstance(budget, int) and budget <= 1000):
+        budget = f.get('kw', {}).get('max_num_steps', 20000 if c.get('kind') == 'stack' else 100000)
+        # fault-free stacks run with an explicit budget of 20000 steps: <= 20000 steps x 3 solutions x 5 layers at ~2 us per step is ~1 s of CPU even under
+        # the sanitizer's slowdown, so 60 s of CPU without returning is a verdict there as well (> 40x slack)
+        if not (isinstance(budget, int) and (budget <= 1000 or (c.get('kind') == 'stack' and budget <= 20000))):
             # M4 is only a verdict for explicit small step budgets; otherwise CPU exhaustion (e.g. touching a huge allocation) is inconclusive
             return {'status': 'inconclusive', 'nontrivial': False, 'violations': [], 'obs': dict(obs, note='CPU limit reached without a small step budget'), 'counters': cnt}
         key = 'radius0-zero-never-returns' if f.get('radius0') == 0.0 else 'call-does-not-return'
-        V(key, f'[{desc} fault={f}] the call consumed more than 60 s of CPU without returning although max_num_steps={budget} (a 1000-step solve costs ~2 ms): the step budget is not honoured')
+        V(key, f'[{desc} fault={f}] the call consumed more than 60 s of CPU without returning although max_num_steps={budget} (a 1000-step solve costs ~2 ms): the call does not terminate within its step budget')
     elif c['kind'] == 'lifetime':
         uaf = [x for x in r['reports'] if 'heap-use-after-free' in x['kind']]
         if uaf:
